@@ -70,7 +70,15 @@ MIRelations(e) == ("mi" \notin DOMAIN e.obs.x /\ "mi_perm" \notin DOMAIN e.obs.x
    /\ \A a \in 1..N : \A b \in 1..N : \A c \in 1..N :
          (a # b /\ c # a /\ c # b /\ Col(e, a) = Col(e, b)) => Close(e.obs.mi[a][c], e.obs.mi[b][c], Tol)
    /\ \A a \in 1..N : \A b \in 1..N : IsNum(e.obs.mi[a][b]) => e.obs.mi[a][b] >= -Tol
+\* binned mutual information (2 aequi-quantile bins) on the lagged windows of M = T - tau_max samples:
+\* BinnedMIDef - the statistic itself (numerator / M); BinnedMIScale - what the library is pinned to by its
+\* own test (numerator / T, i.e. the statistic times M / T: the same for tau_max = 0)
+BinMIWith(e, den) == "bin2" \notin DOMAIN e.obs.x => \A a \in 1..N : \A b \in 1..N : \A L \in 0..e.taumax :
+   a # b => Close(e.obs.bin2[a][b][L + 1],
+                  RDiv(QuantileMINumerator(LagX(e.data, a, L, e.taumax), LagY(e.data, b, e.taumax), 2), den), Tol)
 Checks(e) == <<
+  <<"BinnedMIScale|mutual_information(binning)", BinMIWith(e, e.T)>>,
+  <<"BinnedMIDef|mutual_information(binning)", BinMIWith(e, e.T - e.taumax)>>,
   <<"Relations|MutualInfoClimateNetwork.similarity_measure", MIRelations(e)>>,
   <<"PartialCorrDef|PartialCorrelationClimateNetwork.similarity_measure", PartialDef(e)>>,
   <<"MeanProductDef|Surrogates.test_pearson_correlation", TestPearsonDef(e)>>,
@@ -85,6 +93,7 @@ Checks(e) == <<
   <<"AffineInv|cross_correlation", AffineInv(e)>>, <<"ShiftInv|cross_correlation(offset 2^20)", ShiftInv(e)>>, <<"PermConsistent|cross_correlation", PermConsistent(e)>> >>
 Constant(e) == \E j \in 1..N : Var(Col(e, j)) = 0
 Tags(e) == "T" \o ToString(e.T) \o ",tau" \o ToString(e.taumax) \o (IF Constant(e) THEN ",constant_series" ELSE "")
+           \o (IF e.taumax > 0 THEN ",lagged" ELSE "")
 \* the Gaussian estimator is undefined (singular covariance) when a window is constant or two
 \* windows are perfectly correlated
 GaussUndefined(e) == \E a \in 1..N : \E b \in 1..N : \E L \in 0..e.taumax :
